@@ -222,4 +222,11 @@ func runC12(t *Trace, r *Rng, tier string, _ []string) {
 		}
 		os.RemoveAll(dir)
 	}
+	// files scheduled for an online copy: scripted schedules of overlapping copies, persist rounds and
+	// purges (the explorer of C14); here only the file side is judged — every copy must find its files
+	scen := 40
+	if tier == "thorough" {
+		scen = 80
+	}
+	c14Scripted(t, r, root, scen)
 }
